@@ -511,6 +511,41 @@ Proof.
   rewrite (sufficient_true_forces_winner cands p winner S Ht Hs pi Hp Hv) in He. discriminate.
 Qed.
 
+
+(* ------------------------------------------------------------------ property-level combinations (PC04.v) *)
+Lemma checked_output_sound_full : forall cands p winner out,
+  NoDup cands -> check_output cands p winner out = true ->
+  (forall a tw tl, In (a, tw, tl) out ->
+      holds cands p a = true /\ tally_w p a = tw /\ tally_l p a = tl /\ tl < tw)
+  /\ sufficient cands winner (map rep_assertion out)
+  /\ (forall pi, complete_order cands pi -> valid_order p pi -> ends_in_other winner pi = false).
+Proof.
+  intros cands p winner out Hnd H.
+  destruct (check_output_sound cands p winner out Hnd H) as [H1 H2].
+  split; [exact H1|]. split; [exact H2|].
+  apply (sufficient_true_forces_winner cands p winner (map rep_assertion out)); [|exact H2].
+  intros a Ha. apply in_map_iff in Ha. destruct Ha as [[[a' tw] tl] [He Hin]]. unfold rep_assertion in He. simpl in He. subst a.
+  apply (H1 a' tw tl Hin).
+Qed.
+
+Lemma in_particular : forall cands p winner,
+  NoDup cands ->
+  (* a true assertion never contradicts a valid IRV count (any tie-breaking) of the profile *)
+  (forall a pi, complete_order cands pi -> valid_order p pi -> holds cands p a = true -> contradicts a pi = false)
+  (* hence: if some valid count elects another candidate, no set of true assertions is sufficient *)
+  /\ (forall pi, complete_order cands pi -> valid_order p pi -> ends_in_other winner pi = true ->
+        possible cands p winner = false)
+  (* and a sufficient set of true assertions forces every valid count to elect the reported winner *)
+  /\ (forall S, true_set cands p S -> sufficient cands winner S ->
+        forall pi, complete_order cands pi -> valid_order p pi -> ends_in_other winner pi = false).
+Proof.
+  intros cands p winner Hnd. split; [|split].
+  - intros a pi Hp Hv Hh. apply (true_never_contradicts_valid cands p a pi); auto.
+    intros c Hc. eapply Permutation_in; eauto.
+  - intros pi Hp Hv He. eapply other_winner_not_possible; eauto.
+  - intros S Ht Hs. apply (sufficient_true_forces_winner cands p winner S Ht Hs).
+Qed.
+
 (* ------------------------------------------------------------------ optimum *)
 Open Scope Q_scope.
 Lemma Qle_bool_min a b d : Qle_bool (Qminb a b) d = Qle_bool a d || Qle_bool b d.
